@@ -146,6 +146,14 @@ CORPUS_SUPER = [
     ("[t=v]", "[t=v i]"), ("[t=v i]", "[t=v]"), ("[t=v s]", "[t=v i]"), ("[t=v i]", "[t=v s]"), ("a[t=v]", "a[t=v i].x"),
     ("[c=d]", "[c=d i]"), (":not([t=v i])", ":not([t=v])"), (":not([t=v])", ":not([t=v i])"), ("[t=v i]", "[t=v i]"),
     ("[t=\"v w\" i]", "[t=\"v w\"]"), ("[t=\"v w\"]", "[t=\"v w\" i]"),
+    # round 3: attribute operators are compared by equality (name, value, modifier, operator)
+    ("[t^=v]", "[t^=v]"), ("[t^=v]", "[t=v]"), ("[t=v]", "[t^=v]"), ("[t*=v]", "[t$=v]"), ("[t$=v]", "[t*=v]"), ("[t~=v]", "[t|=v]"),
+    ("[t|=v]", "a[t|=v].x"), ("[t~=v i]", "[t~=v]"), ("[t~=v]", "[t~=v i]"), ("[t*=\"v w\"]", "[t*=\"v w\"]:hover"),
+    (":not([t^=v])", ":not([t=v])"), (":not([t=v])", ":not([t^=v])"), (":is([t$=v], .x)", "[t$=v]"), ("a > [t^=v]", "a > b[t^=v]"),
+    # round 3: pseudos with a non-selector argument are opaque, compared by text
+    (":nth-child(2n+1)", "a:nth-child(2n+1)"), (":nth-child(2n+1)", ":nth-child(odd)"), (":nth-child(odd)", ":nth-child(2n+1)"),
+    (":lang(en)", ".x:lang(en)"), (":nth-child(2n+1)", ":nth-last-child(2n+1)"), ("a::part(foo)", "a::part(foo)"), ("a", "a::part(foo)"),
+    (":not(:nth-child(3))", ":not(:nth-child(3), .x)"), (":is(:nth-child(3), .x)", ".y:nth-child(3)"), ("a ~ :nth-child(2)", "a + b:nth-child(2)"),
     # conservative answers that must stay sound
     ("a > b", "x a > b"), ("a b", "a > x b"), ("a ~ b", "a + b"), ("a", "a.x"), (":is(a, .x)", "a"),
     (":not(.x)", ":not(.x, .y)"), ("a", "a::before"), (".x", ".x:after"),
@@ -185,13 +193,91 @@ def gen_not_pair(rng):
 
 ATTR_FORMS = [None, "v", "v i", "v s", "V", "V i", "w"]
 
+# round 3 — attribute operators and pseudos with a non-selector argument.  selgen prints ('attr', n, v) as `[n=v]`, so the
+# operator's first character rides on the name: ('attr', 't^', 'v i') is `[t^=v i]`.
+ATTR_OPS = ["~", "|", "^", "$", "*"]
+ATTR_VALUES = ["v", "v", "v", "V", "w", '"v w"', '"v"', '"1x"']
+ATTR_MODS = ["", "", "", " i", " s", " I"]
+FPSEUDOS = ["nth-child(2n+1)", "nth-child(odd)", "nth-child(even)", "nth-child(3)", "nth-child(n)", "nth-child(-n+3)", "nth-last-child(2n)",
+            "nth-last-child(+2)", "nth-of-type(2n+1)", "nth-last-of-type(2)", "lang(en)", "dir(ltr)", "foo(bar)", "state(on)"]
+FPELEMS = ["part(foo)", "highlight(h)", "foo(bar)"]
+
+
+def gen_attr_op(rng, name="t"):
+    op = rng.choice(ATTR_OPS + [""])
+    return ("attr", name + op, rng.choice(ATTR_VALUES) + rng.choice(ATTR_MODS))
+
+
+def mk_map(rng):
+    """a substitution of alphabet simples by round-3 constructs (applied to both operands of a case, so that derived
+    pairs keep their relation)"""
+    m = {}
+    if rng.random() < 0.8:
+        m[("attr", "t", "v")] = gen_attr_op(rng)
+    if rng.random() < 0.4:
+        m[("attr", "t", None)] = gen_attr_op(rng)
+    if rng.random() < 0.6:
+        m[("pc", "hover")] = ("pc", rng.choice(FPSEUDOS))
+    if rng.random() < 0.3:
+        m[("pc", "focus")] = ("pc", rng.choice(FPSEUDOS))
+    if rng.random() < 0.3:
+        m[("pe", "before")] = ("pe", rng.choice(FPELEMS))
+    return m
+
+
+def remap(l, m):
+    def simple(s):
+        if s[0] == "sel":
+            return ("sel", s[1], remap(s[2], m))
+        return m.get(tuple(s), s)
+    return [[p if isinstance(p, str) else [simple(s) for s in p] for p in x] for x in l]
+
+
+def decorate(rng, *lists, p=0.3):
+    """with probability p: the lists with one substitution applied to all of them (10%: a second substitution for the last)"""
+    if rng.random() >= p:
+        return lists
+    m = mk_map(rng)
+    out = [remap(l, m) for l in lists]
+    if len(out) > 1 and rng.random() < 0.1:
+        out[-1] = remap(lists[-1], mk_map(rng))
+    return tuple(out)
+
+
+_ATTR_RE = re.compile(r"\[\s*[\w-]+\s*(?:([~|^$*]?=)\s*(\"[^\"]*\"|'[^']*'|[\w-]+)\s*([A-Za-z])?\s*)?\]")
+_FP_RE = re.compile(r"(::?)([\w-]+)\(")
+_SELP = {"not", "is", "where", "matches", "any"}
+
+
+def note_constructs(ck, section, *texts):
+    """histogram keys: attribute operator / modifier / value form, pseudo kinds actually present in the generated case"""
+    for t in texts:
+        for mt in _ATTR_RE.finditer(t):
+            op, val, md = mt.group(1), mt.group(2), mt.group(3)
+            ck.hist(f"{section}:attr[{op or 'any'}]")
+            if md:
+                ck.hist(f"{section}:attr-modifier-{md}")
+            if val and val[0] in "\"'":
+                ck.hist(f"{section}:attr-quoted-value")
+        for mt in _FP_RE.finditer(t):
+            name = mt.group(2)
+            if name in _SELP and mt.group(1) == ":":
+                ck.hist(f"{section}:pseudo-selector-arg:{name}")
+            else:
+                ck.hist(f"{section}:pseudo-opaque-arg:{mt.group(1)}{name}")
+
 
 def gen_attr_pair(rng):
     """compounds / complexes that differ only in the form of one attribute selector (value case, `i` / `s` modifier)"""
     host = [s for s in G.gen_compound(rng, 0, False, False) if s[0] in ("type", "cls", "pc")]
     f1, f2 = rng.choice(ATTR_FORMS), rng.choice(ATTR_FORMS)
-    a = G._order(host + [("attr", "t", f1)])
-    b = G._order(host + [("attr", "t", f2)] + ([G.gen_simple(rng, ["cls", "id"])] if rng.random() < 0.3 else []))
+    s1, s2 = ("attr", "t", f1), ("attr", "t", f2)
+    if rng.random() < 0.6:
+        s1 = gen_attr_op(rng)
+        r = rng.random()
+        s2 = s1 if r < 0.4 else (gen_attr_op(rng) if r < 0.8 else s2)
+    a = G._order(host + [s1])
+    b = G._order(host + [s2] + ([G.gen_simple(rng, ["cls", "id"])] if rng.random() < 0.3 else []))
     if rng.random() < 0.3:
         pre = [G.gen_compound(rng, 0, False, False), rng.choice(G.COMBS)]
         return [pre + [a]], [pre + [b]]
@@ -205,11 +291,11 @@ def gen_super_pairs(rng, n):
     pairs = []
     for _ in range(n):
         r = rng.random()
-        if r < 0.05:
+        if r < 0.08:
             pairs.append(gen_attr_pair(rng))
             continue
         if r < 0.15:
-            pairs.append(gen_not_pair(rng))
+            pairs.append(decorate(rng, *gen_not_pair(rng)))
             continue
         if r < 0.45:
             a = G.gen_complex(rng)
@@ -233,7 +319,7 @@ def gen_super_pairs(rng, n):
             B = A
         else:
             A, B = G.gen_list(rng, 2), G.gen_list(rng, 2)
-        pairs.append((A, B))
+        pairs.append(decorate(rng, A, B))
     return pairs
 
 
@@ -268,7 +354,9 @@ def run(tier, seed):
     ck = Check("C11", tier, seed)
     ck.disagreements = []
     ck.cov["rule"] = ("pairs of selector lists over the alphabet of DESIGN Appendix C (types a,b; universal; classes x,y; ids i,j; "
-                      "[t],[t=v]; :hover,:focus; ::before,:after; :not/:is/:where/:matches with <=2 arguments; combinators "
+                      "[t],[t=v] and (round 3, by substitution in ~30% of the cases) [t op v md] with op in = ~= |= ^= $= *=, "
+                      "bare/quoted values, modifiers i/s/I, :nth-child(An+B) and other pseudos with a non-selector argument, "
+                      "::part(x); :hover,:focus; ::before,:after; :not/:is/:where/:matches with <=2 arguments; combinators "
                       "descendant > + ~; <=3 compounds (+ inserted ones), <=3 complexes): derived (strengthened) pairs, "
                       "combinator chains, reflexive pairs, random pairs; unify on compound and complex pairs; nest/append with "
                       "&, &-suffix, &.x; extend/replace vs @extend; parse/print.  A case is distinct by (operation, operand "
@@ -276,7 +364,9 @@ def run(tier, seed):
                       "selector (is-superselector: answer true and B matched somewhere).")
     ck.assumptions = [
         "matching semantics: Grass.Selector.matchesList (CSS Selectors 4 restricted to the alphabet; a pseudo-element is a "
-        "single-valued feature of the matched element; placeholders match nothing)",
+        "single-valued feature of the matched element; placeholders match nothing; attribute operators ~= |= ^= $= *= and "
+        "the i modifier per Selectors 4 §6.1-6.3 over attribute value strings; a pseudo with a non-selector argument "
+        "such as :nth-child(2n+1) is an opaque flag of the element, like :hover)",
         "element contexts judged: canonical minimal contexts of the selectors involved, their single-feature and "
         "structural perturbations, pseudo-random contexts (depth <=4, <=2 preceding siblings per level); thorough adds "
         "every single-element context",
@@ -353,6 +443,7 @@ def run(tier, seed):
             gv = g[1] == "true"
             if record:
                 ck.hist("super:" + ("true" if gv else "false"))
+                note_constructs(ck, "super", a, b)
             if not m_spec.startswith("ok"):
                 if record:
                     ck.cov["unsupported_dropped"] += 1
@@ -423,11 +514,15 @@ def run(tier, seed):
             a, b = [G.gen_complex(rng, 2)], [G.gen_complex(rng, 2)]
         else:
             a, b = G.gen_list(rng, 2, max_compounds=2), G.gen_list(rng, 2, max_compounds=2)
+        a, b = decorate(rng, a, b)
         ucases.append((G.list_text(a), G.list_text(b)))
-    for _ in range(60 if not big else 500):
+    for _ in range(100 if not big else 800):
         a, b = gen_attr_pair(rng)
         ucases.append((G.list_text(a), G.list_text(b)))
     ucases += [("[c=d i]", "[c=d]"), ("[c=d]", "[c=d i]"), ("[t=v i]", "[t=v s]"), ("a[t=v i]", ".x[t=v]"),
+               ("[t^=v]", "[t=v]"), ("[t^=v]", "[t^=v]"), ("[t~=v i]", "a[t~=v]"), ("[t*=v]", ".x[t$=v]:hover"), ("[t|=v]", "*"),
+               (":nth-child(2n+1)", "a:hover"), (":nth-child(2n+1)", ":nth-child(2n+1)"), ("a:nth-child(3)", ".x::before"),
+               ("::part(foo)", "::before"), ("::part(foo)", ".x::part(foo)"), (":lang(en)", ":not(.x)"), ("::part(foo)", ":nth-child(2)"),
                ("#i", "#j"), ("a", "b"), (".x", "a:hover"), ("::before", ":after"), (".x::before", ".y"), ("*", ".x"),
                ("a", "*"), (".x:hover", ".y::before"), ("a > b", "c > d"), ("a b", "c d"), ("a + b", "c ~ b"), ("#i a", "#i b")]
     impl = eval_exprs(pool, [f"selector-unify({q(a)}, {q(b)})" for a, b in ucases])
@@ -453,6 +548,7 @@ def run(tier, seed):
             ck.hist("unify:impl-error")
             continue
         ck.hist("unify:" + g[0])
+        note_constructs(ck, "unify", a, b)
         compound_pair = m.startswith("ok")
         if not compound_pair:
             ck.hist("unify:complex-operands(direct oracle only)")
@@ -508,6 +604,7 @@ def run(tier, seed):
             elif r < 0.62:
                 x = [[("parent", None)], "+", [("parent", None)]]
             kids.append(x)
+        P, kids = decorate(rng, P, kids, p=0.25)
         ncases.append(("nest", G.list_text(P), G.list_text(kids)))
     for _ in range(250 if not big else 1500):
         P = G.gen_list(rng, 2, max_compounds=2, sel_depth=0, pe=False)
@@ -520,9 +617,12 @@ def run(tier, seed):
             elif r < 0.8:
                 x[0] = [("type", rng.choice(["-s", "_t", "z"]))] + [s for s in x[0] if s[0] not in ("type", "univ")]
             kids.append(x)
+        P, kids = decorate(rng, P, kids, p=0.25)
         ncases.append(("append", G.list_text(P), G.list_text(kids)))
     ncases += [("nest", "a b", "&.x, c"), ("nest", "a, b", "& + &"), ("append", "a, .y", "-s"), ("append", "a", "*"),
-               ("nest", "a >", "b"), ("append", "a::before", "-s"), ("append", "[t]", "-s")]
+               ("nest", "a >", "b"), ("append", "a::before", "-s"), ("append", "[t]", "-s"), ("append", "[t^=v]", "-s"),
+               ("nest", "a[t^=v i]", "&:nth-child(2n+1), b"), ("append", "a:nth-child(2)", "-s"), ("append", "a", ":nth-child(2)"),
+               ("append", "a, b", "[t~=v]"), ("nest", "[t|=v]", "& > &")]
     impl = eval_exprs(pool, [f"selector-{op}({q(p)}, {q(c)})" for op, p, c in ncases])
     sheets = []
     for k, (op, p, c) in enumerate(ncases):
@@ -544,6 +644,7 @@ def run(tier, seed):
             fail(case, {"impl_observation": g, "nested_rule": r}, ["crash"])
             continue
         ck.hist(f"{op}:" + g[0])
+        note_constructs(ck, op, p, c)
         rule_sel = r[1].get(k, (None,))[0] if r[0] == "ok" else None
         # direct: function result == nested rule result (both grass), compared as ASTs by the driver
         if g[0] == "ok" and rule_sel is not None:
@@ -582,6 +683,7 @@ def run(tier, seed):
     ecases = []
     for _ in range(300 if not big else 2000):
         S = G.gen_list(rng, 2, sel_depth=rng.choice([0, 0, 1]), pe=False)
+        (S,) = decorate(rng, S, p=0.25)
         simples = [s for x in S for p in x if not isinstance(p, str) for s in p if s[0] in ("cls", "id", "type", "attr", "pc")]
         if not simples:
             continue
@@ -591,7 +693,9 @@ def run(tier, seed):
         if r > 0.9:
             E.append([G.gen_compound(rng, 0, False, False)])
         ecases.append((G.list_text(S), G.simple_text(T), G.list_text(E)))
-    ecases += [(".a .b", ".b", ".x .y"), ("a.x b", ".x", ".y"), (":not(.x)", ".x", ".y"), (".x.y", ".x", "a"), ("a.x", ".x", "b")]
+    ecases += [("a[t^=v]", "[t^=v]", ".y"), ("[t^=v] b", "[t=v]", ".y"), ("a:nth-child(2n+1)", ":nth-child(2n+1)", ".y b"),
+               (":not([t~=v])", "[t~=v]", ".y"), ("[t$=v i].x", ".x", "[t*=v]"),
+               (".a .b", ".b", ".x .y"), ("a.x b", ".x", ".y"), (":not(.x)", ".x", ".y"), (".x.y", ".x", "a"), ("a.x", ".x", "b")]
     ex = eval_exprs(pool, [f"selector-extend({q(s)}, {q(t)}, {q(e)})" for s, t, e in ecases])
     rp = eval_exprs(pool, [f"selector-replace({q(s)}, {q(t)}, {q(e)})" for s, t, e in ecases])
     rules = eval_rules(pool, [f"{s} {{ i: {k} }}\n{e} {{ @extend {t}; }}" for k, (s, t, e) in enumerate(ecases)])
@@ -606,6 +710,7 @@ def run(tier, seed):
             fail(f"{s} {{i:0}} {e} {{@extend {t}}}", {"impl_observation": rules[k]}, ["crash"])
         rule_sel = rules[k][1].get(k, (None,))[0] if rules[k][0] == "ok" else None
         ck.hist("extend:" + ex[k][0])
+        note_constructs(ck, "extend", s, t, e)
         nontrivial = False
         if ex[k][0] == "ok" and rule_sel is not None:
             lines.append(f"sel equiv {H(ex[k][1])} {H(rule_sel)} {seed * 41 + k} {NR} {EXH}")
@@ -630,7 +735,18 @@ def run(tier, seed):
 
     lap('before parse / print, crash')
     # ---------------------------------------------------------------- parse / print, crash ---
-    pcases = [G.list_text(G.gen_list(rng)) for _ in range(300 if not big else 1500)]
+    pcases = [G.list_text(decorate(rng, G.gen_list(rng), p=0.4)[0]) for _ in range(300 if not big else 1500)]
+    # round 3: every operator x value form x modifier, with free whitespace inside the brackets
+    for op in ATTR_OPS + [""]:
+        for val in ["v", '"v w"', "'v w'", '"1x"', "v-x"]:
+            for md in ["", " i", " S"]:
+                sp = rng.choice(["", " "])
+                at = f"[{sp}t{sp}{op}={sp}{val}{md}{sp}]"
+                pcases += [at, rng.choice(["a", ".x", "a > b", "*"]) + at + rng.choice(["", ":hover", "::before", ":nth-child(2n+1)"])]
+    for fp in FPSEUDOS:
+        pcases += [":" + fp, "a.x:" + fp, f":not(:{fp})", f"b > :{fp}::before"]
+    for fe in FPELEMS:
+        pcases += ["::" + fe, "a::" + fe, f".x::{fe}, b"]
     # attribute selectors with quoted values and `i`/`s` modifiers (attribute.rs Display)
     attrs = ['[t="v w"]', '[t="v w" i]', '[t="v" i]', '[t=v s]', '[t=v i]', "[t='v w' s]", '[t="1x"]', '[t="1x" i]', '[t=v]', '[t="v"]',
              '[a="b c" i]', '[t="--x"]', '[t="--x" i]']
@@ -654,6 +770,7 @@ def run(tier, seed):
     for k, a in enumerate(pcases):
         g, m, same, eqv = impl[k], outs[3 * k], outs[3 * k + 1], outs[3 * k + 2]
         case = f"selector-parse({q(a)})"
+        note_constructs(ck, "parse", a)
         if g[0] != "ok":
             fail(case, {"impl_observation": g}, ["crash"] if g[0] in ("panic", "timeout", "abort", "bad") else ["parse-rejects"])
             continue
